@@ -1,9 +1,9 @@
 package graph
 
 import (
-	"fmt"
 	"context"
 	"errors"
+	"fmt"
 	"sort"
 	"strconv"
 	"strings"
@@ -23,24 +23,24 @@ import (
 // resolver-backed position and directive invocation yields; the generated
 // executor's resolvers and the reference read the same answers.
 type world struct {
-	mu       sync.Mutex
-	outs     map[string]ref.Out
-	guards   map[string]ref.Kind
-	budget   int  // how many positions may still deviate from the default outcome
-	panics   bool // outcome alphabet includes panic
-	calls    []string
-	recovers int
-	raised   int // panics actually raised by user code
-	args     []string // arguments received by User.calc, rendered
-	introspection bool // introspection enabled for the operation
-	onCall   func(n int) // called at the n-th resolver call (cancellation points)
-	regExt    bool    // every resolver-backed field registers the response extension "cost": the second registration is an API misuse that panics inside gqlgen
-	regs      int
-	cancels   bool    // the harness cancels the request context itself (C05): a cancelled context is not a fault then
-	subEvents []*User // the events the subscription resolver emitted
-	onlyIntercept bool // deviations are spent on interceptor outcomes only
-	intercept bool // the field interceptor may fail (C04): one more fault point around every field
-	gated    bool // resolver calls are schedule gates (C06/C13: completion orders are replayed natively)
+	mu            sync.Mutex
+	outs          map[string]ref.Out
+	guards        map[string]ref.Kind
+	budget        int  // how many positions may still deviate from the default outcome
+	panics        bool // outcome alphabet includes panic
+	calls         []string
+	recovers      int
+	raised        int         // panics actually raised by user code
+	args          []string    // arguments received by User.calc, rendered
+	introspection bool        // introspection enabled for the operation
+	onCall        func(n int) // called at the n-th resolver call (cancellation points)
+	regExt        bool        // every resolver-backed field registers the response extension "cost": the second registration is an API misuse that panics inside gqlgen
+	regs          int
+	cancels       bool    // the harness cancels the request context itself (C05): a cancelled context is not a fault then
+	subEvents     []*User // the events the subscription resolver emitted
+	onlyIntercept bool    // deviations are spent on interceptor outcomes only
+	intercept     bool    // the field interceptor may fail (C04): one more fault point around every field
+	gated         bool    // resolver calls are schedule gates (C06/C13: completion orders are replayed natively)
 }
 
 var theWorld *world
@@ -544,7 +544,9 @@ func (r *queryResolver) Nodes(ctx context.Context) ([]Node, error) {
 	}
 	return res, nil
 }
-func (r *queryResolver) Odds(ctx context.Context) ([]*Odd, error) { return r.w.oddList("Query", "", "odds") }
+func (r *queryResolver) Odds(ctx context.Context) ([]*Odd, error) {
+	return r.w.oddList("Query", "", "odds")
+}
 func (r *queryResolver) Strict(ctx context.Context) (*User, error) {
 	return r.w.user("Query", "", "strict")
 }
@@ -607,7 +609,9 @@ func (r *subscriptionResolver) events(field string) (<-chan *User, error) {
 	close(ch)
 	return ch, nil
 }
-func (r *subscriptionResolver) Watch(ctx context.Context) (<-chan *User, error) { return r.events("watch") }
+func (r *subscriptionResolver) Watch(ctx context.Context) (<-chan *User, error) {
+	return r.events("watch")
+}
 func (r *subscriptionResolver) StrictWatch(ctx context.Context) (<-chan *User, error) {
 	return r.events("strictWatch")
 }
@@ -1065,7 +1069,12 @@ func newExecutorFor(es graphql.ExecutableSchema, w *world) *executor.Executor {
 func opCtxFor(w *world, doc *ast.QueryDocument, vars map[string]any) *graphql.OperationContext {
 	return &graphql.OperationContext{
 		RawQuery: "", Variables: vars, Doc: doc, Operation: doc.Operations[0], DisableIntrospection: !w.introspection,
-		RecoverFunc:            func(ctx context.Context, err any) error { w.mu.Lock(); w.recovers++; w.mu.Unlock(); return gqlerror.Errorf("internal system error") },
+		RecoverFunc: func(ctx context.Context, err any) error {
+			w.mu.Lock()
+			w.recovers++
+			w.mu.Unlock()
+			return gqlerror.Errorf("internal system error")
+		},
 		ResolverMiddleware:     w.fieldMiddleware,
 		RootResolverMiddleware: func(ctx context.Context, next graphql.RootResolver) graphql.Marshaler { return next(ctx) },
 	}
